@@ -66,7 +66,7 @@ type SeqCase struct {
 	Ops     []Op   `json:"ops"`
 }
 
-var kdcFaults = []string{"krb-error", "cipher-flip", "cipher-trunc", "cipher-empty", "reply-trunc", "reply-garbage", "reply-empty", "key-other",
+var kdcFaults = []string{"s2k-2-24", "s2k-zero", "s2k-max", "krb-error", "cipher-flip", "cipher-trunc", "cipher-empty", "reply-trunc", "reply-garbage", "reply-empty", "key-other",
 	"nonce", "cname-other", "crealm-other", "sname-other", "srealm-other"}
 var krbCodes = []int{6, 7, 12, 14, 18, 23, 24, 25, 31, 37, 41, 52, 60, 68}
 var apDefects = []string{"", "kt-wrong-key", "kt-no-entry", "tamper", "trunc", "replay", "require-addr"}
@@ -102,14 +102,15 @@ func (s *memSM) Get(r *http.Request, k string) ([]byte, error) {
 }
 
 type seqWorld struct {
-	c     SeqCase
-	cap   *capture
-	world *kdc.World
-	realm *kdc.Realm
-	srv   *kdc.Server
-	kpEP  []*kdc.Endpoint
-	cfg   *config.Config
-	ip    string
+	savedPolicy *kdc.Policy // the realm's policy while a fault has changed it
+	c           SeqCase
+	cap         *capture
+	world       *kdc.World
+	realm       *kdc.Realm
+	srv         *kdc.Server
+	kpEP        []*kdc.Endpoint
+	cfg         *config.Config
+	ip          string
 
 	pw, wrongpw string
 	alice, svc  *kdc.Principal
@@ -250,6 +251,13 @@ func (w *seqWorld) setFault(op Op) {
 		w.realm.PushLife(kdc.Life{StartOff: 0, EndOff: 3 * time.Second, RenewOff: time.Hour})
 	}
 	ex, name, _ := strings.Cut(op.Fault, ":")
+	if raw, ok := map[string][]byte{"s2k-2-24": {1, 0, 0, 0}, "s2k-zero": {0, 0, 0, 0}, "s2k-max": {0xff, 0xff, 0xff, 0xff}}[name]; ok && ex == "AS" {
+		// the KDC asks for pre-authentication and advertises an iteration count outside what a client accepts: the client
+		// has to refuse, and its refusal must not show what it was about to derive the key from
+		w.savedPolicy = &kdc.Policy{}
+		*w.savedPolicy = w.realm.Policy
+		w.realm.Policy.PreauthRequired, w.realm.Policy.InfoParamsRaw = true, raw
+	}
 	seed := w.c.Seed
 	w.realm.Mutate = func(x *kdc.ReplyCtx) {
 		if op.PAC != "" && x.Kind == "TGS" && x.Ticket.SName == svcSPN && x.Ticket.EncKey.EType != ref.DES3 {
@@ -292,7 +300,12 @@ func (w *seqWorld) setFault(op Op) {
 	}
 }
 
-func (w *seqWorld) clearFault() { w.realm.Mutate = nil }
+func (w *seqWorld) clearFault() {
+	w.realm.Mutate = nil
+	if w.savedPolicy != nil {
+		w.realm.Policy, w.savedPolicy = *w.savedPolicy, nil
+	}
+}
 
 // harvest registers the secrets that came into being and the requests the client sent since the last call.
 func (w *seqWorld) harvest() {
